@@ -1300,6 +1300,36 @@ def pan13(ctx):
         if spins:
             r.report("PAN-13|context_match_option|no-progress-test", loc, b.path,
                      "the extension loop of an optional without upper bound can go round without testing that the repetition consumed anything: an optional whose body matches at zero width (`a > e / _(#,0)k`, `_($,0)k`, `_(,0)k`) repeats the same state up to usize::MAX times -- the call does not return")
+        # the comparison is one of the cursor *before this repetition* with the cursor after it: one operand is a snapshot
+        # taken inside the loop, on the way to the repetition (not a position saved before the loop was entered)
+        from engine_pan import _single_def
+
+        def resolve(l, hops=0):
+            d = _single_def(b, l)
+            if d is not None and hops < 5:
+                if d.get("k") == "use" and d["op"].get("k") in ("copy", "move") and not d["op"]["pl"]["p"]:
+                    return resolve(d["op"]["pl"]["l"], hops + 1)
+                if d.get("k") == "ref" and not d["pl"]["p"]:
+                    return d["pl"]["l"]
+            return l
+
+        def def_block(l):
+            out = [bi for bi, bl in enumerate(b.blocks) for s_ in bl["s"] if s_["k"] == "assign" and s_["lhs"]["l"] == l and not s_["lhs"]["p"]]
+            return out[0] if len(out) == 1 else None
+        outside = set(range(len(b.blocks))) - body
+        fresh = False
+        for e in EQ & body:
+            t = b.blocks[e]["t"]
+            for a_ in t["args"]:
+                if a_.get("k") not in ("copy", "move"):
+                    continue
+                db = def_block(resolve(a_["pl"]["l"]))
+                if db is not None and db in body and any(m in cfg.reachable_from(db, avoid=outside | {h}) for m in M & body):
+                    fresh = True
+        r.inst("context_match_option: that comparison uses a snapshot of the cursor taken in the same round, before the repetition", loc, "ok" if fresh or spins else "report")
+        if not fresh and not spins:
+            r.report("PAN-13|context_match_option|stale-snapshot", loc, b.path,
+                     "the progress test of the extension loop compares the cursor with a position saved before the loop, not with the cursor before *this* repetition: an optional whose body consumes once and then matches at zero width (`({t,$},0)`) is not recognised as stuck, and the loop runs up to usize::MAX rounds")
     if n == 0:
         raise AnchorMissing("PAN-13: context_match_option has no loop over match_opt_states bounded by unwrap_or(..)")
     r.analysed = {"unbounded_loops": n}
@@ -4079,4 +4109,51 @@ def cli16(ctx):
                              "a blank line closes the current rule group whether or not its description was read: a named group with a blank line between its rules is split into the named group and an anonymous rest, so `! {'name'}` no longer removes, and `~ {'name'}` no longer keeps, the rules after the blank line")
     if n < 1:
         raise AnchorMissing("CLI-16: parse_rsca has no `push` of a rule group in a blank-line branch")
+    return r
+
+
+# ---------------------------------------------------------------- SYN-7: spaces around the colon of `tone: n`
+
+def syn7(ctx):
+    """"Whitespace is not important" inside a matrix. The reader of the one named argument (`tone: 35`, rule lexer
+    get_string, alias lexer get_enby) skips whitespace between the name and the colon and between the colon and the
+    number: on the CFG, every path from the name lookup (string_match) to the look at the next character passes
+    trim_whitespace, and so does every path from the `advance` over the colon to get_numeric."""
+    r = RuleResult("SYN-7", "the `tone: n` reader of both lexers skips whitespace before the colon and before the number (trim_whitespace on every path)", floor=4)
+    lib = ctx.lib
+    n = 0
+    for path in ("asca::lexer::Lexer::get_string", "asca::alias::lexer::AliasLexer::get_enby"):
+        b = ctx.fn(lib, path)
+        cfg = b.cfg
+        calls = list(b.calls())
+        own = path.rsplit("::", 1)[0] + "::"
+
+        def sites(name):
+            return [i for i, t in calls if (callee_path(t) or "") == own + name]
+        SM, TW, CC, ADV, NUM = sites("string_match"), set(sites("trim_whitespace")), sites("curr_char"), sites("advance"), sites("get_numeric")
+        if not SM or not ADV or not NUM or not CC:
+            raise AnchorMissing("SYN-7: %s: string_match / curr_char / advance / get_numeric call sites not found" % path)
+        short = path.rsplit("::", 2)[-2] + "::" + path.rsplit("::", 1)[-1]
+        # (a) name -> first look at the next character
+        nxt0 = b.blocks[SM[0]]["t"].get("t")
+        reach = set() if nxt0 in TW else cfg.reachable_from(nxt0, avoid=TW)
+        bad = [c for c in CC if c in reach]
+        n += 1
+        r.inst("%s: whitespace is skipped between the name and the colon" % short, fn_loc(b), "ok" if not bad else "report")
+        if bad:
+            r.report("SYN-7|%s|before-colon" % short, fn_loc(b), path,
+                     "the character after the argument name is examined without skipping whitespace first: `[tone : 35]` is rejected (ExpectedCharColon) while `[tone: 35]` is read -- spaces inside a matrix are documented as insignificant")
+        # (b) colon -> number
+        bad2 = []
+        for a in ADV:
+            nxt = b.blocks[a]["t"].get("t")
+            if nxt is None or nxt in TW:
+                continue
+            reach = cfg.reachable_from(nxt, avoid=TW)
+            bad2 += [x for x in NUM if x in reach]
+        n += 1
+        r.inst("%s: whitespace is skipped between the colon and the number" % short, fn_loc(b), "ok" if not bad2 else "report")
+        if bad2:
+            r.report("SYN-7|%s|after-colon" % short, fn_loc(b), path,
+                     "the number after the colon is read without skipping whitespace first: `[tone: 35]` is rejected while `[tone:35]` is read")
     return r
